@@ -657,6 +657,87 @@ def variant_model(rng, m):
     return v
 
 
+def _units(argv):
+    """Index groups: '--x=y' alone, '-w value' / '--opt value' pairs."""
+    units = []
+    i = 0
+    while i < len(argv):
+        a = argv[i]
+        nxt = argv[i + 1] if i + 1 < len(argv) else None
+        if a.startswith('-') and '=' not in a and nxt is not None and a != '-T' and not _looks_like_flag(nxt):
+            units.append([i, i + 1])
+            i += 2
+        else:
+            units.append([i])
+            i += 1
+    return units
+
+
+def _looks_like_flag(x):
+    if not x.startswith('-'):
+        return False
+    try:
+        float(x.split(',')[0])
+        return False
+    except ValueError:
+        return True
+
+
+def fuzz_variant(rng, m):
+    """A sibling produced by 1-2 random edits at the level of the option
+    list (perturb one number, delete / duplicate / swap option units): covers
+    single changes nobody thought of listing.  Many results are rejected by
+    the program; those die identically on both sides and cost nothing."""
+    import copy
+    v = copy.deepcopy(m)
+    argv = v.argv()
+    for _ in range(rng.choice([1, 1, 2])):
+        units = _units(argv)
+        if not units:
+            break
+        kind = rng.choice(['number', 'number', 'number', 'delete', 'duplicate', 'swap'])
+        u = rng.choice(units)
+        if kind == 'number':
+            vi = u[-1]
+            txt = argv[vi]
+            head, sep, val = txt.partition('=') if txt.startswith('--') and '=' in txt else ('', '', txt)
+            fields = val.split(',')
+            idx = [k for k, f in enumerate(fields) if _is_num(f)]
+            if not idx:
+                continue
+            k = rng.choice(idx)
+            x = float(fields[k])
+            how = rng.choice(['double', 'half', 'plus1', 'minus1', 'negate', 'tiny', 'zero'])
+            y = {'double': x * 2, 'half': x / 2, 'plus1': x + 1, 'minus1': x - 1, 'negate': -x,
+                 'tiny': x * (1 + 1e-6), 'zero': 0.0}[how]
+            if fields[k].lstrip('+-').isdigit() and float(y).is_integer():
+                fields[k] = str(int(y))
+            else:
+                fields[k] = repr(round(y, 10))
+            argv[vi] = head + sep + ','.join(fields)
+        elif kind == 'delete':
+            argv = [a for i, a in enumerate(argv) if i not in u]
+        elif kind == 'duplicate':
+            argv = argv + [argv[i] for i in u]
+        else:
+            w = rng.choice(units)
+            if w is not u and len(w) == len(u):
+                for a_, b_ in zip(u, w):
+                    argv[a_], argv[b_] = argv[b_], argv[a_]
+    v.argv_geo, v.argv_env, v.argv_src, v.argv_load = argv, [], [], []
+    v.exact = False
+    v.features = list(v.features) + ['variant_fuzz']
+    return v
+
+
+def _is_num(f):
+    try:
+        float(f)
+        return True
+    except ValueError:
+        return False
+
+
 # --------------------------------------------------------------- frequencies
 
 def gen_pool(rng, m, k=None):
@@ -955,7 +1036,7 @@ def gen_cli_task(rng, maxops=8, env=None, kinds=None, model=None, pool=None):
     if rng.random() < 0.4:
         if rng.random() < 0.6:
             # a sibling command line at the same frequencies
-            models.append(variant_model(rng, models[0]))
+            models.append((fuzz_variant if rng.random() < 0.35 else variant_model)(rng, models[0]))
             pools[1] = 'same'
         else:
             models.append(gen_model(rng, env=env, kinds=kinds))
@@ -1088,7 +1169,7 @@ def gen_plan(run_seed, tier='quick', env=None, kinds=None, shape=None):
         model = pool = None
         if siblings and first is not None and first.get('_model') is not None:
             # a sibling of the first task's model, at the same frequencies
-            model = variant_model(rng, first['_model'])
+            model = (fuzz_variant if rng.random() < 0.35 else variant_model)(rng, first['_model'])
             pool = list(first['pool'])
         if kind == 'direct':
             g = shared if rng.random() < 0.8 else rng.choice([None, 'ideal'])
